@@ -23,14 +23,14 @@ import networkx as nx
 from flowpaths.nodeexpandeddigraph import NodeExpandedDiGraph
 from crosshair.tracers import NoTracing
 
-ALPH = ["a", "bb", "c.0"]          # a node name that itself ends in '.0' must survive the round trip
+ALPH = ["a", "a.b", "c.0"]         # a name that ends in '.0' and a dotted name whose prefix is another node must survive the round trip
 _G = nx.DiGraph()
 for _u in ALPH:
     for _v in ALPH:
         _G.add_edge(_u, _v)
 for _i, _v in enumerate(ALPH):
     if _i != 1:
-        _G.nodes[_v]["flow"] = _i + 1      # node 'bb' has no attribute -> its expanded edge is ignored
+        _G.nodes[_v]["flow"] = _i + 1      # node 'a.b' has no attribute -> its expanded edge is ignored
 _N = NodeExpandedDiGraph(_G, node_flow_attr="flow")
 _single = nx.DiGraph()
 _single.add_node("x", flow=3)
@@ -49,7 +49,10 @@ def roundtrip_nodes(idx: List[int]) -> bool:
     post: _
     """
     p = [ALPH[i] for i in idx]
-    return _N.get_condensed_paths([_expand(p)]) == [p]
+    try:
+        return _N.get_condensed_paths([_expand(p)]) == [p]
+    except Exception:       # a valid expanded path must be translated, not rejected
+        return False
 
 def roundtrip_two_paths(idx: List[int], cut: int) -> bool:
     """
@@ -59,7 +62,10 @@ def roundtrip_two_paths(idx: List[int], cut: int) -> bool:
     post: _
     """
     p, q = [ALPH[i] for i in idx[:cut]], [ALPH[i] for i in idx[cut:]]
-    return _N.get_condensed_paths([_expand(p), _expand(q)]) == [p, q]
+    try:
+        return _N.get_condensed_paths([_expand(p), _expand(q)]) == [p, q]
+    except Exception:
+        return False
 
 def expanded_elements(i: int, j: int) -> bool:
     """
